@@ -152,6 +152,15 @@ def work(shard, seed, tier):
                              sample={"script": CG.watcher_script(T, N)} if (P, T, N) == ("0.125", "0.5", 5) else None)
                     for sig, what in fails:
                         acc.fail(sig, what, {"watcher": case})
+        for P in TICKS:
+            for cond in [["timeout", t] for t in ("0.0", "0.1", "0.25", "0.5", "1.0")] + [["repeat", n] for n in (1, 2, 3, 5)]:
+                for delay in (0, 2):
+                    case = {"P": P, "cond": cond, "delay": delay}
+                    fails = CG.check_slave(case)
+                    acc.case(key=("slave", P, repr(cond), delay), nontrivial=True, classes=["slave-started-and-run-in-one-tick"],
+                             sample={"script": CG.slave_script(cond, delay)} if (P, delay, cond[1]) == ("0.125", 0, 3) else None)
+                    for sig, what in fails:
+                        acc.fail(sig, what, {"slave": case})
         acc.note("main framer clocks read by its auxiliary's transitions: tick periods x 6 thresholds x 3 counts enumerated")
         return acc
     if shard["part"] == "clone":
@@ -189,6 +198,8 @@ def replay(case):
         return CG.check_handover(case["handover"])
     if "watcher" in case:
         return CG.check_watcher(case["watcher"])
+    if "slave" in case:
+        return CG.check_slave(case["slave"])
     if "clone" in case:
         return CG.check(case["clone"])[0]
     if "prog" in case:
